@@ -387,6 +387,12 @@ def race_case(args):
         g = gen.Gen(rng, weights=profile.get('setup_weights'), n_rps=profile.get('n_rps', 3), mv_mode='latest')
         for _ in range(profile.get('setup_ops', 14)):
             ops.apply_real(_APP, g.op(gen.View(_APP.dump())))
+        if profile.get('picker') == 'tree':
+            # the custom classes / traits the deletion-versus-use scenarios name exist in the start state
+            for n in gen.CUSTOM_RCS:
+                ops.apply_real(_APP, {'op': 'rc_put', 'mv': 39, 'name': n})
+            for n in gen.CUSTOM_TRAITS:
+                ops.apply_real(_APP, {'op': 'trait_put', 'mv': 39, 'name': n})
         warm_aux(_APP)
         start_dump = _APP.dump()
         start_snap = _APP.snapshot()
